@@ -47,6 +47,28 @@ func runC04(c *Ctx, r *Report) {
 		r.fail("C04-anchors", "decoder", "", "type decoder not found")
 		return
 	}
+	c04ReadDiscipline(c, r)
+
+	// ---- R3: hash typestate ------------------------------------------------------------
+	c04Typestate(c, r)
+
+	// ---- R4: verdict dominance ------------------------------------------------------------
+	c04Verdicts(c, r)
+
+	// ---- R5: header layouts ------------------------------------------------------------
+	c04Layouts(c, r)
+
+	// ---- R6: encoder pairing ---------------------------------------------------------------
+	c04Encoder(c, r)
+
+	// ---- R7: a verdict, once produced, reaches the caller --------------------------------------
+	c04VerdictPropagation(c, r)
+}
+
+// c04ReadDiscipline: R1 (who reads the input reader) and R2 (every byte read is fed to the running
+// checksum exactly once, whatever the reader's chunking). Shared with C10: a byte hashed twice or not
+// at all makes the verdict, and with it the result of Decode / DecodeChained, depend on the chunking.
+func c04ReadDiscipline(c *Ctx, r *Report) {
 	// ---- R1: who reads d.r ----------------------------------------------------
 	type readSite struct {
 		fn   *ssa.Function
@@ -122,21 +144,6 @@ func runC04(c *Ctx, r *Report) {
 		ok, detail := c04Pairing(c, rs.fn, rs.call, rs.kind)
 		r.check(ok, "C04-R2-read-feed", key, pos, detail, detail)
 	}
-
-	// ---- R3: hash typestate ------------------------------------------------------------
-	c04Typestate(c, r)
-
-	// ---- R4: verdict dominance ------------------------------------------------------------
-	c04Verdicts(c, r)
-
-	// ---- R5: header layouts ------------------------------------------------------------
-	c04Layouts(c, r)
-
-	// ---- R6: encoder pairing ---------------------------------------------------------------
-	c04Encoder(c, r)
-
-	// ---- R7: a verdict, once produced, reaches the caller --------------------------------------
-	c04VerdictPropagation(c, r)
 }
 
 func storesInto(fn *ssa.Function, prefix string) []ssa.Instruction {
